@@ -49,6 +49,7 @@ RULE += (' ' + 'Also generated: for build, a callable that mutates its list/dict
 RULE += (' ' + 'Round 7: long values two levels inside container arguments; graphviz.render with max_str_length.')
 RULE += (' ' + 'Round 6: the node shared by two sub-fixtures holds a Buildable / list / dict itself.')
 RULE += (' ' + "Rounds 3-5: both code generators with the root's arguments as sub-fixtures (a tagged node shared by two of them); render_diff(trim=True) with OrderedDict leaves; build_diff against a copy with overlapping tag sets.")
+RULE += (' ' + 'Round 8: with_defaults_trimmed on a node whose shared (untrimmable) mutable argument equal to its default is followed or preceded by a trimmable default-equal argument.')
 ASSUMPTIONS = [
     'history is excluded from the compared state (as in the property statement)',
     'an API that raises on an input is not a C17 violation; only a changed input is',
@@ -219,6 +220,17 @@ def strategy_(draw, tier):
     nodes.append({'k': 'B', 'bt': 'Config', 'fn': {'kind': 'sym', 'name': 'things:h1'}, 'pos': [],
                   'kw': {'a': {'leaf': 'uidR'}, 'b': recipe['root'], 'c': len(nodes) - 1,
                          **({'d': ci} if draw(st.booleans()) else {})}, 'edits': []})
+    recipe['root'] = len(nodes) - 1
+  if api.startswith('with_defaults_trimmed') and draw(st.booleans()):
+    # round 8: a node whose first default-equal argument is a shared mutable container (cannot be
+    # trimmed) and whose later argument equals its default and can be trimmed (both orders)
+    nodes = recipe['nodes']
+    nodes.append({'k': 'list', 'items': [{'leaf': 'single-default'}], '_eqdef': True})
+    li = len(nodes) - 1
+    kw = {'a': li, 'other': {'leaf': None}} if draw(st.booleans()) else {'other': {'leaf': None}, 'a': li}
+    nodes.append({'k': 'B', 'bt': 'Config', 'fn': {'kind': 'sym', 'name': 'things:mutdef1'}, 'pos': [], 'kw': kw, 'edits': []})
+    nodes.append({'k': 'B', 'bt': 'Config', 'fn': {'kind': 'sym', 'name': 'things:h1'}, 'pos': [],
+                  'kw': {'a': {'leaf': 'uidD'}, 'b': recipe['root'], 'c': len(nodes) - 1, 'd': li}, 'edits': []})
     recipe['root'] = len(nodes) - 1
   if api.startswith('graphviz.render_diff_trim') and draw(st.booleans()):
     # a dict-subclass leaf (not traversed by daglish) directly under the root
